@@ -414,6 +414,8 @@ def run_path(I, c, cfg, decisions):
         exc = outcome[1]
         matched = False
         for et, name, when, state in c.raises:
+            if isinstance(et, str):
+                et = I.find_class(et)
             if I.exc_matches(exc, et):
                 matched = True
                 g = _to_goal(when(old))
@@ -539,6 +541,8 @@ def replay_concrete(c, cfg, model):
             e = outcome[1]
             matched = False
             for et, name, when, state in c.raises:
+                if isinstance(et, str):
+                    et = real_object(et)
                 if isinstance(e, et):
                     matched = True
                     if not bool(when(old)):
